@@ -26,7 +26,7 @@ PARTIAL = [
     "of their contracts (L Lᵀ = B, Z c = ν c) are measured on every case (evidence: max_contract_residual)",
     "theorem orthonormal_product_partial needs pairwise distinct positive eigenvalues and column-centred univariate scores",
     "square roots (√ν·√normSqProj, √weight) are taken in float from exact squares",
-    "Basis.inner_product zeroes entries below 1e-12 (absolute): absorbed by the tolerance",
+    "Basis.inner_product zeroes entries below 1e-12·max|G| (relative since f5d5f39): absorbed by a tolerance at that scale",
     "Gram matrices failing the Cholesky test need statsmodels (absent): classified, not modelled",
     "irregular components: only well-formedness (runs / shapes / finite) is sampled",
     "NumInt scores involve local-polynomial smoothing of the new data: only shape and finiteness are sampled",
@@ -864,7 +864,8 @@ def _compare_fit(case, f, outs, pos, stats):
         pos += 1
         gs = _amax(Gq) + 1e-300
         if f["B"][q] is not None:
-            ds += _cmp_mat(f"Basis.inner_product (component {p})", f["B"][q], Gq, gs, 1e-9, 2e-12)
+            # entries below 1e-12·max are zeroed by Basis.inner_product (relative since f5d5f39): absorbed at that scale only
+            ds += _cmp_mat(f"Basis.inner_product (component {p})", f["B"][q], Gq, gs, 1e-9, 2e-12 * gs)
         L = np.asarray(f["Ublocks"][q], dtype=float).T
         stats["chol_residual"] = max(stats.get("chol_residual", 0.0), _amax(L @ L.T - np.asarray([[float(x) for x in r] for r in Gq])) / gs)
         # contract of the captured factor, exact on the model side: block q of UᵀU (as assembled and multiplied by
@@ -874,7 +875,7 @@ def _compare_fit(case, f, outs, pos, stats):
         blockB = [[B[o_q + a][o_q + b] for b in range(s_q)] for a in range(s_q)]
         for a in range(s_q):
             for b in range(s_q):
-                if abs(blockB[a][b] - Gq[a][b]) > Fraction(1, 10 ** 8) * F(gs) + Fraction(2, 10 ** 12):
+                if abs(blockB[a][b] - Gq[a][b]) > (Fraction(1, 10 ** 8) + Fraction(2, 10 ** 12)) * F(gs):
                     ds.append(f"block {q} of cholesky_matrix.T @ cholesky_matrix is not the Gram matrix of the basis of component {p}: [{a}][{b}] {float(blockB[a][b])!r} vs {float(Gq[a][b])!r}")
                     break
             else:
